@@ -7,10 +7,10 @@ DROPPED_GEN = ['libstdc++ headers (replaced by model/include)', 'nothing of Comp
                'VM/src/instr.cpp: only the Instruction factory functions are extracted']
 
 
-def _gen_build(contract_c, fn, layout=False, cdefs=(), unwind=None, redirect=None, replace=(), loops=None):
+def _gen_build(contract_c, fn, layout=False, cdefs=(), unwind=None, redirect=None, replace=(), loops=None, enforce=None, unwindset=None):
     def build(gw, rl):
         n_layout, xlayout = genunit.gen_mirror(gw)
-        name, expected = genunit.build_gen_unit(gw, rl, layout_text=xlayout if layout else None, redirects={redirect: True} if redirect else None)
+        name, expected = genunit.build_gen_unit(gw, rl, layout_text=xlayout if layout else None, redirects={r: True for r in (redirect if isinstance(redirect, (list, tuple)) else [redirect])} if redirect else None)
         rl.check(expected)
         b = {'c_sources': [os.path.join(CONTRACTS, contract_c)] if contract_c else [], 'cxx_sources': [os.path.join(gw, name)], 'cdefs': list(cdefs),
              'entry': 'h_' + fn, 'dropped': DROPPED_GEN, 'min_obligations': 10,
@@ -22,12 +22,14 @@ def _gen_build(contract_c, fn, layout=False, cdefs=(), unwind=None, redirect=Non
             b['loops_tpl'] = os.path.join(CONTRACTS, loops)
         if unwind:
             b['cbmc_flags'] = b['cbmc_flags'] + ['--unwind', str(unwind)]
+        if unwindset:
+            b['cbmc_flags'] = b['cbmc_flags'] + ['--unwindset', unwindset]
         if layout:
             b['c_sources'] = [os.path.join(gw, 'layout_gen_c.c')]
             b['entry'] = 'h_layout'
             b['min_obligations'] = n_layout
         else:
-            b['enforce'] = [f'w_{fn}/c_{fn}']
+            b['enforce'] = [enforce] if enforce else [f'w_{fn}/c_{fn}']
         return b
     return build
 
@@ -65,6 +67,12 @@ def groups():
         gs.append(Group('gen_' + fn, props, f'{fn} (Compiler/src/gen.cpp)', 'c_' + fn,
                         _gen_build('gen_disp.c', fn, redirect=fn, replace=REPL + (['w_dispatchArgs_rec/c_dispatchArgs_callee'] if fn == 'dispatchArgs' else [])),
                         timeout=900, note='callees fetchTemporary, fetchVariableRegister, dispatchValue, dispatchVoid replaced by their contracts; the mark table holds at most 4 marks'))
+    gs.append(Group('genU_dispatchValue', ['C03', 'C04', 'C16', 'C01', 'C20', 'C02'], 'dispatchValue + dispatchCallArgs (Compiler/src/gen.cpp)', 'c_dispatchValue_top',
+                    _gen_build('gen_disp.c', 'dispatchValue_top', redirect=['dispatchValue', 'dispatchCallArgs'], unwind=5, unwindset='__CPROVER_contracts_write_set_check_assigns_clause_inclusion.0:40',
+                               replace=['w_fetchTemporary/c_fetchTemporary', 'w_fetchVariableRegister/c_fetchVariableRegister', 'w_dispatchValue_rec/c_dispatchValue',
+                                        'w_advanceLine/c_advanceLine_callee', 'w_strToInt/c_strToInt_callee', 'w_strToIntSilent/c_strToIntSilent_callee'],
+                               enforce='w_dispatchValue/c_dispatchValue_top'), timeout=1800,
+                    bounded='BOUNDED stand-in: a RUN with at most 2 arguments (dispatchCallArgs inlined, recursion and the ARG loop unwound: --unwind 5), program table of capacity 4; nested argument values go through the callee contract'))
     for (kr, kt, tier) in ((2, 3, 'quick'), (3, 4, 'thorough')):
         sfx = '' if tier == 'quick' else '_L'
         gs.append(Group('genU_popSymbols' + sfx, ['C03', 'C16', 'C04', 'C07', 'C02'], 'GenState::popSymbols (Compiler/src/gen.cpp)', 'c_popSymbols',
